@@ -219,6 +219,16 @@ def build(run):
         "Mesh": (lambda coordinate_element=P1v, ufl_id=7301: Mesh(coordinate_element, ufl_id=ufl_id),
                  {"coordinate_element": [P1v, L(ufl.triangle, 2, (2,))], "ufl_id": [7301, 7302]}),
         "Index": (lambda count=7401: Index(count), {"count": [7401, 7402]}),
+        # order-sensitive containers: the same members in another order are a different object
+        "MeshSequence": (lambda meshes=(tri, tri_b): ufl.MeshSequence(list(meshes)), {"meshes": [(tri, tri_b), (tri_b, tri), (tri, tri_c), (tri_c, tri_b)]}),
+        "MixedFunctionSpace": (lambda spaces=(FunctionSpace(tri, P1), FunctionSpace(tri, P2)): ufl.MixedFunctionSpace(*spaces),
+                               {"spaces": [(FunctionSpace(tri, P1), FunctionSpace(tri, P2)), (FunctionSpace(tri, P2), FunctionSpace(tri, P1)),
+                                           (FunctionSpace(tri, P1), FunctionSpace(tri_b, P2))]}),
+        "FunctionSpace over a MeshSequence": (lambda meshes=(tri, tri_b): FunctionSpace(ufl.MeshSequence(list(meshes)), E.MixedElement([P1, P2], make_cell_sequence=True)),
+                                              {"meshes": [(tri, tri_b), (tri_b, tri)]}),
+        "Coefficient over a MeshSequence": (lambda meshes=(tri, tri_b), count=7501: Coefficient(
+            FunctionSpace(ufl.MeshSequence(list(meshes)), E.MixedElement([P1, P2], make_cell_sequence=True)), count=count),
+            {"meshes": [(tri, tri_b), (tri_b, tri)], "count": [7501, 7502]}),
     }
     for cname, (ctor, fields) in FIELDS.items():
         def perturb(cname=cname, ctor=ctor, fields=fields):
